@@ -13,6 +13,7 @@ import Driver.LoadOps
 import Driver.CorrOps
 import Driver.DetOps
 import Driver.SerOps
+import Driver.RewriteOps
 open Lean Driver
 
 def dispatch (op : String) (j : Json) : Except String Json :=
@@ -44,6 +45,7 @@ def dispatch (op : String) (j : Json) : Except String Json :=
   | "det.case" => detCase j
   | "ser.case" => serCase j
   | "ser.obj" => serObj j
+  | "rewrite.case" => rewriteCase j
   | "ping" => pure (Json.mkObj [("pong", true)])
   | _ => throw s!"unknown op {op}"
 
